@@ -430,6 +430,19 @@ def run(check):
         cases.append(('import os\nos.%s' % ident, (2, L + 3), 'long-ident:attr', fn_))
         cases.append(('%s = 1\n%s%s' % (ident, ' ' * L, ident[:40]), (2, L + 40), 'long-line:name', fn_))
 
+    # line ends other than \n: lone \r, \r\n, mixed; a cursor on a later line must land on that line
+    fn_ = os.path.join(S.projdir, 'pkg', 'cur.py')
+    for sep in ('\r', '\r\n', '\n\r', '\r\r'):
+        for body, last in (('value = 1' + sep + 'other = 2' + sep, 'val'), ('import os' + sep + 'foo = os' + sep, 'fo'),
+                           ('def f(arg_one):' + sep + '    pass' + sep, 'f')):
+            src_ = body + last
+            nl = len(src_.replace('\r\n', '\n').replace('\r', '\n').split('\n'))
+            try:
+                compile(src_, '<m>', 'exec')
+            except SyntaxError:
+                continue
+            cases.append((src_, (nl, len(last)), 'line-ends:%r' % sep, fn_))
+
     orc = Oracle(S, check)
     prefix_reqs, prefix_impl = [], []
     proposal_lists = []
